@@ -21,6 +21,7 @@ type Case struct {
 	Inputs     [][]byte `json:"inputs"` // hostile byte strings (rtp-in / rtcp-in)
 	OutHeader  []byte   `json:"out_header,omitempty"`
 	OutPayload int      `json:"out_payload,omitempty"`
+	OutMore    []int    `json:"out_more,omitempty"` // further outgoing payload sizes, written right after the first with consecutive sequence numbers
 	Dirty      byte     `json:"dirty"`
 	Fast       bool     `json:"fast,omitempty"` // fuzzing: skip the pauses that let ticker goroutines run
 }
@@ -202,8 +203,17 @@ func execute(c *Case) string { //nolint:cyclop
 			return "harness: out header: " + err.Error()
 		}
 		h.SSRC = 0x6001
-		if v := writeRTP(h, kit.FillBytes(c.OutPayload, uint64(c.OutPayload)+1), "oversize/odd outgoing write", false); v != "" {
-			return v
+		// consecutive with the history, so that batching members (FEC) take the packet into their next batch
+		for i, size := range append([]int{c.OutPayload}, c.OutMore...) {
+			hh := h.Clone()
+			hh.SequenceNumber = r.seqOut
+			r.seqOut++
+			if id := hh.GetExtension(twccID); id != nil {
+				r.twccOut++
+			}
+			if v := writeRTP(hh, kit.FillBytes(size, uint64(size)+uint64(i)+1), "oversize/odd outgoing write", false); v != "" {
+				return v
+			}
 		}
 	}
 	// let ticker goroutines and asynchronous deliveries run over the hostile state
